@@ -1,1 +1,148 @@
+(* C06 — acknowledged state survives a crash at any point; recovery is a prefix.
+   Property theorems only; every proof is [exact lemma].  Model: Model/Wal.v
+   (byte-granular file-system actions; a crash = any prefix of the actions with the
+   last append cut at any byte).  The codecs and the MAC are universally
+   quantified; the codec hypotheses (decode inverts encode, encodings fit the u32
+   length prefix) stay visible in every statement. *)
+From Coq Require Import Sorting.Sorted.
 From SV Require Import Lib.Base Gen.WalConsts Model.Wal Proofs.Wal.
+Local Open Scope N_scope.
+
+(* the numbers recovery and rotation rely on, proved from the regenerated constants *)
+Theorem C06_constants :
+  WAL_MAX_ENTRIES = 1000 /\ WAL_MAX_SIZE = 10485760 /\ 1 <= WAL_SNAPSHOT_RETENTION /\ WAL_HMAC_KEY_LEN = 32 /\ WAL_VERSION < 256.
+Proof. repeat split; try reflexivity; vm_compute; congruence. Qed.
+
+(* Framing: complete records followed by nothing parse to exactly the records;
+   followed by a torn tail they parse to the records plus the torn marker; and any
+   non-empty strict prefix of a record IS a torn tail (every byte cut of a write). *)
+Theorem wal_parse_frames : forall bodies, Forall small bodies ->
+  parse (frames bodies) = (bodies, false) /\
+  (forall t, torn t -> parse (frames bodies ++ t) = (bodies, true)) /\
+  (forall body n, small body -> (0 < n < length (frame body))%nat -> torn (firstn n (frame body))).
+Proof.
+  intros bodies H. split; [exact (parse_frames_exact bodies H)|].
+  split; [intros t Ht; exact (parse_frames_torn bodies t H Ht) | exact strict_prefix_torn].
+Qed.
+
+(* replaying a suffix of a history on top of its own result changes nothing: why
+   logs that overlap a snapshot are harmless *)
+Theorem C06_replay_suffix_idempotent : forall l1 l2 st,
+  apply_changes (apply_changes st (l1 ++ l2)) l2 ≈ apply_changes st (l1 ++ l2).
+Proof. exact replay_suffix_idem. Qed.
+
+Section C06.
+  Variable deser : bytes -> option entry.
+  Variable mac : bytes -> bytes.
+  Variable val_ok : bytes -> bool.
+  Variable dec_changes : bytes -> option (list change).
+  Variable deser_hdr : bytes -> option snaphdr.
+  Variable dec_map : bytes -> option state.
+  Variable ser : entry -> bytes.
+  Variable enc_changes : list change -> bytes.
+  Variable ser_hdr : snaphdr -> bytes.
+  Variable enc_map : state -> bytes.
+  Hypothesis Hser : forall e, deser (ser e) = Some e.
+  Hypothesis Hser_small : forall e, small (ser e).
+  Hypothesis Hchg : forall cs, dec_changes (enc_changes cs) = Some cs.
+  Hypothesis Hmap : forall st, exists st', dec_map (enc_map st) = Some st' /\ st' ≈ st.
+
+  Notation recover := (recover deser mac val_ok dec_changes deser_hdr dec_map).
+  Notation DInv := (DInv mac val_ok dec_changes deser_hdr dec_map ser).
+  Notation DInvG := (DInvG mac val_ok dec_changes deser_hdr dec_map ser).
+  Notation WInv := (WInv mac val_ok dec_changes deser_hdr dec_map ser).
+  Notation genuine := (genuine mac val_ok dec_changes).
+  Notation eff := (eff val_ok dec_changes).
+  Notation simple_op := (simple_op val_ok).
+
+  (* The disk invariant determines what recovery returns: the committed state, and a
+     transaction counter that never exceeds the bound kept by the writer. *)
+  Theorem C06_recovery_of_invariant : forall d M C, DInv d M C ->
+    r_state (recover d) ≈ M /\ r_ctr (recover d) <= C.
+  Proof. exact (recover_DInv deser mac val_ok dec_changes deser_hdr dec_map ser Hser Hser_small). Qed.
+
+  (* The empty directory (after state.wal has been created) satisfies it. *)
+  Theorem C06_init : WInv (exec disk0 [ACreate FWal]) (mkW [] 0 0 0) [].
+  Proof. exact (WInv_init mac val_ok dec_changes deser_hdr dec_map ser). Qed.
+
+  (* EVERY crash cut of one logged write - between or inside the two writes of the
+     record (any byte), after it, between the steps of the rotation that may follow -
+     leaves a disk that recovers either the state before the write or the state
+     after it. *)
+  Theorem C06_write_cuts : forall d w M C e y rot a b,
+    DInvG d M C [] -> d_wal d = Some y -> genuine e -> C < e_txid e ->
+    let d' := exec d (cut (fst (write_actions ser d w e rot)) a b) in
+    DInv d' M C \/ DInv d' (apply_changes M (eff e)) (e_txid e).
+  Proof. exact (write_cuts deser mac val_ok dec_changes deser_hdr dec_map ser enc_changes enc_map Hser Hser_small Hchg Hmap). Qed.
+
+  (* Rotation steps preserve the invariant (rename to the next free sequence number,
+     then re-creation of state.wal). *)
+  Theorem C06_rotation_steps : forall d M C y, DInvG d M C [] -> d_wal d = Some y ->
+    let d1 := exec1 d (ARename FWal (FRot (next_seq d))) in
+    DInvG d1 M C [] /\ d_wal d1 = None /\ DInvG (exec1 d1 (ACreate FWal)) M C [].
+  Proof.
+    intros d M C y H Hy.
+    destruct (step_rotate_rename mac val_ok dec_changes deser_hdr dec_map ser enc_map Hmap d M C y H Hy) as [H1 H2].
+    exact (conj H1 (conj H2 (proj1 (step_create_wal mac val_ok dec_changes deser_hdr dec_map ser _ M C H1 H2)))).
+  Qed.
+
+  (* Checkpoint, part 1: every step that touches only snapshot.<ts>.tmp (create,
+     header, data, any byte cut of them) preserves the invariant. *)
+  Theorem C06_checkpoint_tmp_steps : forall d d' M C t,
+    d_wal d' = d_wal d -> d_rot d' = d_rot d -> d_snap d' = d_snap d -> DInvG d M C t -> DInvG d' M C t.
+  Proof. exact (DInvG_same_files mac val_ok dec_changes deser_hdr dec_map ser). Qed.
+
+  (* PREFIX, for all histories of upserts, deletes and rolled-back batches, from any
+     state satisfying the invariant (e.g. the empty directory, C06_init) and EVERY
+     crash point (operation i, a whole actions, b bytes of the next append): the
+     recovered state is the start state advanced by the first j operations with
+     i <= j <= i+1, i.e. acknowledged <= j <= issued.
+     PARTIAL with respect to the property text: batch and checkpoint operations are
+     not part of this induction (their steps are covered by C06_write_cuts /
+     C06_rotation_steps / C06_checkpoint_tmp_steps and by the correspondence check). *)
+  Theorem C06_prefix_partial : forall ops d w M i a b, WInv d w M -> Forall simple_op ops ->
+    exists j, (i <= j <= S i)%nat /\
+      r_state (recover (crash_disk deser mac ser enc_changes ser_hdr enc_map d w ops i a b)) ≈ apply_ops M (firstn j ops).
+  Proof. exact (crash_prefix_simple deser mac val_ok dec_changes deser_hdr dec_map ser enc_changes ser_hdr enc_map Hser Hser_small Hchg Hmap). Qed.
+
+  (* CLEAN RESTART: after all operations have returned, recovery reproduces the full state. *)
+  Theorem C06_clean_restart_partial : forall ops d w M, WInv d w M -> Forall simple_op ops ->
+    r_state (recover (fst (run_ops deser mac ser enc_changes ser_hdr enc_map d w ops))) ≈ apply_ops M ops.
+  Proof.
+    intros ops d w M HW Hs.
+    exact (proj1 (recover_DInv deser mac val_ok dec_changes deser_hdr dec_map ser Hser Hser_small _ _ _
+      (DInvG_DInv mac val_ok dec_changes deser_hdr dec_map ser _ _ _ _
+        (proj1 (run_ops_simple deser mac val_ok dec_changes deser_hdr dec_map ser enc_changes ser_hdr enc_map Hser Hser_small Hchg Hmap ops d w M HW Hs))))).
+  Qed.
+
+  (* TRANSACTION COUNTER: at every crash point of one operation the disk satisfies the
+     invariant with the writer's counter after the operation as bound, so the
+     recovered counter never exceeds it, while (C06_recovery_of_invariant, all ids on
+     disk <= recovered counter by construction of [recover]) it is at least every id
+     stamped on a surviving record: a restarted writer continues strictly above. *)
+  Theorem C06_txid_monotone_partial : forall d w M o, WInv d w M -> simple_op o ->
+    let r := op_actions deser mac ser enc_changes ser_hdr enc_map d w o in
+    w_ctr w <= w_ctr (snd r) /\
+    WInv (exec d (fst r)) (snd r) (apply_op M o) /\
+    forall a b, r_ctr (recover (exec d (cut (fst r) a b))) <= w_ctr (snd r).
+  Proof.
+    intros d w M o HW Hs.
+    destruct (op_step_simple deser mac val_ok dec_changes deser_hdr dec_map ser enc_changes ser_hdr enc_map Hser Hser_small Hchg Hmap d w M o HW Hs) as [Hc [HW' Hle]].
+    split; [exact Hle|]. split; [exact HW'|]. intros a b.
+    destruct (Hc a b) as [H | H];
+      exact (proj2 (recover_DInv deser mac val_ok dec_changes deser_hdr dec_map ser Hser Hser_small _ _ _ H)).
+  Qed.
+End C06.
+
+(* non-vacuity: the concrete postcard codec satisfies the decode-after-encode
+   hypothesis on a sample record, and a two-operation history with a cut inside the
+   second record recovers exactly the first operation *)
+Example C06_example :
+  let e := mk_entry mac_cheap 7 1700000000 TUpsert [107; 49] (Some [2; 9; 9]) in
+  pc_deser (pc_ser e) = Some e /\
+  let ops := [OUpsert 1700000000 [107; 49] [1; 5]; ODelete 1700000001 [107; 49]] in
+  let d0 := exec disk0 [ACreate FWal] in
+  let dc := crash_disk pc_deser mac_cheap pc_ser pc_enc_changes pc_ser_hdr pc_enc_map d0 (mkW [] 0 0 0) ops 1 0 17 in
+  r_state (x_recover mac_cheap dc) = [([107; 49], [1; 5])] /\
+  s_events (r_stats (x_recover mac_cheap dc)) = [EvTorn].
+Proof. vm_compute. repeat split; reflexivity. Qed.
